@@ -2,6 +2,12 @@
 and the signature function that labels a failing case for known_findings.jsonl."""
 
 PROPS = {
+    'C03': {
+        'families': [('c03', 60, 600)],
+        'rule': 'generated archives (real writers; duplicates, equal digest under different hash codes, identity CIDs, CIDv0, CARv1 with optional null padding / CARv2 with data padding) x {bytes.Reader, plain reader} x {car-index-sorted, car-multihash-index-sorted, insertion index} x {StoreIdentityCIDs, ZeroLengthSectionAsEOF, MaxIndexCidSize}; GetAll/GetFirst for every present CID, codec/hash-code variants and absent CIDs, ForEach where offered; distinct = distinct script text',
+        'trusted': ['GoLLRB as an insertion-stable ordered multiset', 'Go sort.Sort instability is canonicalised away (entries with equal digest compared as sorted offset lists)'],
+        'assumptions': ['lookup correctness of the binary search (GetAll over a loaded index) is tied differentially, not yet by a theorem (see level_note)'],
+    },
     'C02': {
         'families': [('c02', 6, 40)],
         'rule': 'per generated archive (real writers, block alphabet of the property): EVERY truncation offset up to the end of the payload and a byte flip at EVERY offset, plus raw/spliced/mutated byte strings, through the v2 BlockReader (seekable and plain source) and the internal CARv1 reader; distinct = distinct script text; non-trivial = executed against implementation and model',
@@ -22,4 +28,6 @@ def signature(pid, script, I, S):
         if 'flip' in toks:
             return 'C02/corruption-not-reported'
         return 'C02/unsound-block-returned'
+    if pid == 'C03':
+        return 'C03/' + toks.get('kind', '?') + '-' + ('v' + toks.get('ver', '?')) + '-index-differs-from-reference-scan'
     return f'{pid}/{fam}'
